@@ -69,7 +69,8 @@ def plan(tier):
                 'under each listed version; Query then one request per advertised operation; a cell is (kind, '
                 'operation / attribute / (payload, tag), version, outcome)',
         'min_monitor': {'version_echo_checked': 20, 'operation_cells': 300, 'response_tag_sets_checked': 300,
-                        'newer_field_requests': 30, 'attribute_lists_checked': 40},
+                        'newer_field_requests': 30, 'attribute_lists_checked': 40,
+                        'request_level_rejections_checked': 30, 'unsupported_version_repeated': 20},
         'assumptions': ['tag introduction version is read off the numeric tag ranges of the cumulative KMIP tag tables',
                         'Operation Policy Name counts as removed in KMIP 2.0 (deprecated in 1.3 but still defined through 1.4)',
                         '"refused" = no successful batch item; "available" = reason other than Operation Not Supported'],
@@ -145,6 +146,27 @@ def run_case(ctx, case):
                             ctx.violation('echo|%d.%d' % v, 'request under KMIP %d.%d answered with header version %s'
                                           % (v + (r.header_version if r else None,)), None)
                         check_tags(ctx, r, v, 'echo')
+                # requests the engine rejects as a whole (not item by item): the error answer is built by the session and
+                # must still speak the version of the request
+                for v in SUPPORTED:
+                    rejected = [('asynchronous', dict(asynchronous=True)), ('undo', dict(error_option=E.BatchErrorContinuationOption.UNDO)),
+                                ('stale-time-stamp', dict(time_stamp=1000)), ('future-time-stamp', dict(time_stamp=2 ** 33)),
+                                ('missing-batch-ids', dict(ids=[None, None])), ('credential', dict(credential=('alice', 'pw')))]
+                    for label, kw in rejected:
+                        ops_ = [op_locate(), op_query()] if label == 'missing-batch-ids' else [op_locate()]
+                        try:
+                            data = rig.encode_request(rig.build_request(v, ops_, **kw), v)
+                        except Exception:
+                            continue
+                        r = send_session(srv, data, cert)
+                        ctx.ev()
+                        ctx.count('version_echo_checked')
+                        ctx.count('request_level_rejections_checked')
+                        ctx.cell('echo-rejected', label, '%d.%d' % v, r.brief()[0][0] if r and r.items else 'none')
+                        if r is None or r.header_version != v:
+                            ctx.violation('echo|%d.%d|%s' % (v + (label,)), 'a %s request under KMIP %d.%d is answered with header version %s'
+                                          % ((label,) + v + (r.header_version if r else None,)), None)
+                        check_tags(ctx, r, v, 'echo')
                 for v in UNSUPPORTED:
                     for mk in (lambda: with_version(base, v),
                                lambda: with_version(rig.encode_request(rig.build_request((1, 2), [op_create(names=['c16-%d%d' % v])]), (1, 2)), v),
@@ -160,6 +182,24 @@ def run_case(ctx, case):
                         if any(it['status'] == 0 for it in r.items) or srv.dump() != before:
                             ctx.violation('unsupported-served|%d.%d' % v, 'a request under unsupported KMIP %d.%d was served: %s'
                                           % (v + (r.brief(),)), None)
+                    # a request without batch items is the one shape the decoder lets through under a version it does not
+                    # know: the refusal is the engine's, and it must be repeated however often the version is tried
+                    empty = with_version(rig.encode_request(rig.build_request((1, 2), []), (1, 2)), v)
+                    for attempt in range(3):
+                        before = srv.dump()
+                        r = send_session(srv, empty, cert)
+                        ctx.ev()
+                        ctx.count('unsupported_version_checked')
+                        ctx.count('unsupported_version_repeated')
+                        ctx.cell('refuse-empty', '%d.%d' % v, attempt, r.brief()[0][0] if r and r.items else 'none')
+                        if r is None:
+                            ctx.violation('unsupported|no-response', 'no response to an empty request under KMIP %d.%d' % v, None)
+                            break
+                        if not r.items or any(it['status'] == 0 for it in r.items) or srv.dump() != before:
+                            ctx.violation('unsupported-served|%d.%d|attempt-%d' % (v + (attempt + 1,)),
+                                          'attempt %d of a request under unsupported KMIP %d.%d was not refused: %s (header version %s)'
+                                          % ((attempt + 1,) + v + (r.brief(), r.header_version)), None)
+                            break
             elif part == 'operations':
                 for oname in case['ops']:
                     o = O[oname]
